@@ -58,6 +58,28 @@ def sanitizeName (U : Uni) (n : Str) : Str :=
 def sanitizeEnumNames (U : Uni) (names values : List Str) : Option (List (Str × Str)) :=
   stage2 (sanitizeName U) (stage1 names values) [] []
 
+/-! ### Third pass (GenerateGoSchema): the names become type-name shaped
+
+`GenerateGoSchema` renames every constant of `SanitizeEnumNames` once more (`SchemaNameToTypeName`: first letter upper-cased,
+a prefix for a leading digit, …). Two names that the second pass kept apart can be renamed to one (`_a` and `A`, `foo` and
+`Foo`). Before the repair the renamed names were keys of a map and the later value replaced the earlier one (`pass3Old`);
+`renameEnumNames` now walks the names in ascending order and numbers a renamed name that is taken (`pass3`). -/
+
+def pass3 (norm : Str → Str) : List (Str × Str) → List (Str × Str) → Option (List (Str × Str))
+  | [], out => some out.reverse
+  | (n, v) :: rest, out =>
+    if (out.map (·.1)).contains (norm n) then
+      match freeName (out.map (·.1)) (norm n) ((out.map (·.1)).length + 1) 1 with
+      | none => none
+      | some (name, _) => pass3 norm rest ((name, v) :: out)
+    else pass3 norm rest ((norm n, v) :: out)
+
+def setKey (m : List (Str × Str)) (k v : Str) : List (Str × Str) :=
+  if m.any (·.1 = k) then m.map fun e => if e.1 = k then (k, v) else e else m ++ [(k, v)]
+
+def pass3Old (norm : Str → Str) (ps : List (Str × Str)) : List (Str × Str) :=
+  ps.foldl (fun m p => setKey m (norm p.1) p.2) []
+
 /-! ### Go string literals -/
 
 def lowerHex (n : Nat) : Nat := if n < 10 then 48 + n else 87 + n
